@@ -270,6 +270,32 @@ func thorough(args []string) int {
 			falseAlarms = append(falseAlarms, r.Name+": "+strings.Join(r.Reported, "; "))
 		}
 	}
+	// independently written breaking changes (seeded): replayed for the property they were written against
+	// and for every property whose check reported them when they were collected
+	var sres []mutantResult
+	for _, sv := range loadSeeded(filepath.Join(*verif, "seeded")) {
+		applies := sv.Property == *prop
+		for _, p := range sv.Reporting {
+			if p == *prop {
+				applies = true
+			}
+		}
+		if !applies {
+			continue
+		}
+		r := runBenign(dir, sv.benignVariant, *prop, known)
+		r.Name = "seeded/" + sv.Name
+		r.Kind = "seeded"
+		switch r.Outcome {
+		case "false-alarm":
+			r.Outcome = "detected"
+		case "silent":
+			r.Outcome = "missed"
+		}
+		counts["seeded-"+r.Outcome]++
+		sres = append(sres, r)
+	}
+	extra["seeded"] = sres
 	extra["refactorings"] = bres
 	extra["mutants"] = results
 	extra["mutant_counts"] = counts
@@ -490,5 +516,97 @@ func benignAll(args []string) int {
 	if bad > 0 {
 		return 1
 	}
+	return 0
+}
+
+type seededVariant struct {
+	benignVariant
+	Property  string
+	Reporting []string
+}
+
+func loadSeeded(dir string) []seededVariant {
+	ds, _ := filepath.Glob(filepath.Join(dir, "*", "overlay.json"))
+	sort.Strings(ds)
+	var out []seededVariant
+	for _, f := range ds {
+		b, err := os.ReadFile(f)
+		if err != nil {
+			continue
+		}
+		var v seededVariant
+		if json.Unmarshal(b, &v.benignVariant) != nil {
+			continue
+		}
+		v.Name = filepath.Base(filepath.Dir(f))
+		var meta struct {
+			Property string              `json:"property"`
+			Checks   map[string][]string `json:"checks_reporting"`
+		}
+		if mb, err := os.ReadFile(filepath.Join(filepath.Dir(f), "meta.json")); err == nil {
+			_ = json.Unmarshal(mb, &meta)
+		}
+		v.Property = meta.Property
+		for p := range meta.Checks {
+			v.Reporting = append(v.Reporting, p)
+		}
+		sort.Strings(v.Reporting)
+		out = append(out, v)
+	}
+	return out
+}
+
+// seededAll re-evaluates every seeded change against every property (development aid): prints which properties report it.
+func seededAll(args []string) int {
+	fs := flag.NewFlagSet("seeded", flag.ExitOnError)
+	verif := fs.String("verif", "/verif", "verif directory")
+	_ = fs.Parse(args)
+	known, _ := core.LoadKnown(*verif + "/known_findings.json")
+	dir := os.Getenv("VERIF_REPO")
+	if dir == "" {
+		dir = "/repo"
+	}
+	props := []string{"C01", "C02", "C03", "C04", "C06", "C07", "C09", "C10", "C11", "C12", "C13", "C14", "C15", "C16", "C17", "C18", "C19", "C20"}
+	knownSet := map[string]bool{}
+	for _, k := range known.Known {
+		knownSet[k.Property+"|"+k.Key] = true
+	}
+	caught := 0
+	total := 0
+	for _, v := range loadSeeded(filepath.Join(*verif, "seeded")) {
+		ov := map[string][]byte{}
+		for p, content := range v.Files {
+			ov[filepath.Join(dir, p)] = []byte(content)
+		}
+		prog, err := core.Load(core.LoadOptions{Dir: dir, Overlay: ov})
+		if err != nil {
+			fmt.Printf("%s: does not load: %v\n", v.Name, err)
+			continue
+		}
+		total++
+		rep := map[string][]string{}
+		for _, p := range props {
+			sink := core.NewSink()
+			ctx := &rules.Ctx{P: prog, S: sink}
+			func() {
+				defer func() { recover() }()
+				for _, r := range rules.For(p) {
+					r.Run(ctx)
+				}
+			}()
+			for _, o := range sink.Obs {
+				if o.Property == p && o.Verdict == core.Violated && !knownSet[o.Property+"|"+o.Key] {
+					rep[p] = append(rep[p], o.Key)
+				}
+			}
+		}
+		rules.Forget(prog)
+		b, _ := json.Marshal(rep)
+		if len(rep) > 0 {
+			caught++
+		}
+		fmt.Printf("SEEDED %s %s\n", v.Name, string(b))
+	}
+	fmt.Printf("seeded changes: %d, reported by at least one check: %d\n", total, caught)
 	return 0
 }
